@@ -58,12 +58,20 @@ def expand_regions(h, repo, module):
             continue
         kv = parse_kv(st[len("//@region "):])
         text, first, desc = extract_part(repo, dict(file="src/%s.rs" % module, impl=kv.get("impl"), fn=kv["src"], part=kv["part"]))
-        body = "pub fn %s%s {\n%s\n%s\n}" % (kv["fn"], kv["sig"], text, kv.get("tail", ""))
+        body = "pub fn %s%s {\n%s\n%s\n}" % (kv["fn"], kv["sig"], seq_fix(text, module), kv.get("tail", ""))
         if kv.get("impl"):
             body = "impl %s {\n%s\n}" % (kv["impl"], body)
         out.append(body)
         drops.append("mirror: region `%s` emitted verbatim as fn %s%s (tail `%s` added)" % (desc, kv["fn"], kv["sig"], kv.get("tail", "")))
     return "\n".join(out), drops
+
+
+def seq_fix(text, module):
+    """the sequential rewrites of SEQ applied to a region / slice body cut from network.rs"""
+    if module != "network":
+        return text
+    text = re.sub(r"\.par_chunks\(", ".chunks(", text)
+    return re.sub(r"batch\s*\.into_par_iter\(\)", "batch.0.iter().zip(batch.1.iter())", text)
 
 
 def expand_slices(h, repo, module):
@@ -97,6 +105,7 @@ def expand_slices(h, repo, module):
             i += 1
         i += 1
         body, first, desc = extract_part(repo, dict(file="src/%s.rs" % module, impl=kv.get("impl"), fn=kv["src"], part="whole"))
+        body = seq_fix(body, module)
         protect = [x for x in kv.get("protect", "").split(",") if x]
         spans = []
         for re1, re2, occ in dl:
